@@ -58,7 +58,7 @@ def classify_spec(b):
 def case_text(case):
     return case[0] + case[1] + ["END"]
 
-def run(ctx, n_cases, impls=("cache", "cacheof_sa", "cacheof_ii"), nops=(5, 60)):
+def run(ctx, n_cases, impls=("cache", "cacheof_sa", "cacheof_ii"), nops=(5, 60), dense=False):
     """-> dict(ok_build, mismatches, spec_bad, cases, stats, impl_out)"""
     exe_model, mlog = ctx.ocaml()
     d, exes, glog = ctx.go_seq()
@@ -70,7 +70,7 @@ def run(ctx, n_cases, impls=("cache", "cacheof_sa", "cacheof_ii"), nops=(5, 60))
         res.update(ok_build=False, build_log="scratch copy / Go driver: " + glog[-1500:])
         return res
     stats = {}
-    cases = gen_cache.gen_cases(ctx.seed, n_cases, impls=impls, nops=nops, stats=stats)
+    cases = gen_cache.gen_cases(ctx.seed, n_cases, impls=impls, nops=nops, stats=stats, dense=dense)
     mism, impl_out, model_out = cacheseq.check(exes["verifseq"], exe_model, cases)
     bad = cacheseq.spec_check(exe_model, cases, impl_out) if impl_out and len(impl_out) == len(cases) else []
     res.update(mismatches=mism, spec_bad=bad, cases=cases, stats=stats, n=len(cases),
@@ -131,3 +131,87 @@ def canon_range(line):
     if not m:
         return line
     return m.group(1) + ",".join(sorted(p for p in m.group(2).split(",") if p)) + " ; " + " ".join(sorted(m.group(4).split()))
+
+
+# ----------------------------------------------------------------------------
+# direct checks of C06 / C08 on the implementation's own output (dense cases)
+
+def parse_dump(line):
+    """'<i> dump now=.. dflt=.. cb=.. n=.. k:v:e,...' -> (now, cb, {k:(v,e)})"""
+    f = line.split()
+    d = dict(x.split("=") for x in f[2:6])
+    ents = {}
+    if len(f) > 6:
+        for t in f[6].split(","):
+            k, v, e = t.split(":")
+            ents[int(k)] = (int(v), int(e))
+    return int(d["now"]), d["cb"], ents
+
+def events_of(line):
+    return line.split(" ; ", 1)[1].split() if " ; " in line else []
+
+def law_check(cases, impl_out):
+    """-> (c06 failures, c08 failures) as lists of dict(case, index, op, why, impl)"""
+    c06, c08 = [], []
+    for ci, ((h, ops), (_, il)) in enumerate(zip(cases, impl_out)):
+        res = il[1:]
+        for i, op in enumerate(ops):
+            if i >= len(res) or i == 0:
+                continue
+            name = op.split()[1]
+            prev = ops[i - 1].split()[1]
+            fires = [e for e in events_of(res[i]) if e.startswith("fire:")]
+            if name in ("delete", "getanddelete", "deleteexpired") and prev == "dump":
+                now, cb, ents = parse_dump(res[i - 1])
+                if name == "deleteexpired":
+                    removed = [(k, v) for k, (v, e) in ents.items() if 0 < e < now]
+                else:
+                    k = int(op.split()[2])
+                    removed = [(k, ents[k][0])] if k in ents else []
+                want = sorted("fire:%s:%d:%d" % (cb, k, v) for k, v in removed) if cb != "-" else []
+                if sorted(fires) != want:
+                    c06.append(dict(case=ci, index=i, op=op, impl=res[i], why="fired %s, removed %s" % (sorted(fires), want)))
+                if name == "deleteexpired" and i + 2 < len(res) and ops[i + 1].split()[1] == "dump":
+                    _, _, after = parse_dump(res[i + 1])
+                    exp_after = {k: ve for k, ve in ents.items() if not (0 < ve[1] < now)}
+                    if after != exp_after:
+                        c06.append(dict(case=ci, index=i, op=op, impl=res[i + 1], why="contents after the pass are not the unexpired entries"))
+                    cnt = res[i + 2].split()
+                    if ops[i + 2].split()[1] == "count" and cnt[1:3] != ["nat", str(len(exp_after))]:
+                        c08.append(dict(case=ci, index=i + 2, op=ops[i + 2], impl=res[i + 2], why="Count after DeleteExpired is not the number of live entries"))
+            elif fires and name not in ("delete", "getanddelete", "deleteexpired"):
+                c06.append(dict(case=ci, index=i, op=op, impl=res[i], why="a call that removes nothing fired a callback"))
+            if name == "count" and prev == "dump":
+                now, cb, ents = parse_dump(res[i - 1])
+                cnt = res[i].split()
+                live = sum(1 for v, e in ents.values() if not (0 < e < now))
+                if cnt[1:3] != ["nat", str(len(ents))] or live > len(ents):
+                    c08.append(dict(case=ci, index=i, op=op, impl=res[i], why="Count differs from the number of keys physically present (%d)" % len(ents)))
+            if name == "clear" and i + 2 < len(res) and ops[i + 2].split()[1] == "count":
+                if res[i + 2].split()[1:3] != ["nat", "0"]:
+                    c08.append(dict(case=ci, index=i + 2, op=ops[i + 2], impl=res[i + 2], why="Count after Clear is not 0"))
+    return c06, c08
+
+
+def shrink_by(case, bad):
+    h, ops = case
+    if not bad((h, ops)):
+        return case
+    i = 0
+    while i < len(ops):
+        cand = ops[:i] + ops[i + 1:]
+        if cand and bad((h, cand)):
+            ops = cand
+        else:
+            i += 1
+    return (h, ops)
+
+def shrink_law(res, ci, which):
+    exe = res["exe_impl"]
+    def bad(c):
+        rc, io, err = cacheseq.run_impl(exe, [c])
+        if not io:
+            return False
+        c06, c08 = law_check([c], io)
+        return bool(c06 if which == "C06" else c08)
+    return shrink_by(res["cases"][ci], bad)
